@@ -208,7 +208,7 @@ PROPS["C20"] = P([("options", "asan", 1200, 0.4), ("options", "fast", 1200, 0.35
     "(a) option vectors through every public setter: all problem triples incl. Culham-free set, grids down to the smallest, "
     "anisotropic factor with refinement radius anywhere (incl. the CLI default 0), disabled tolerances, zero smoothing steps, zero "
     "iterations, level caps 1..6, take without caches, 1..12 threads, arbitrary reduction factor, out-of-range enum integers, "
-    "second solve; (b) generated argv for the command-line program run in-process (incl. malformed command lines)",
+    "second solve, deep hierarchies of anisotropic grids; (b) generated argv for the command-line program run in-process (incl. malformed command lines)",
     "deterministic simulation in the ASan+UBSan+assert build (rejected-or-completes, no sanitizer/assert/deadlock) and "
     "memory-poison differential in the fast build (same plan under two heap/stack poison patterns => bit-identical statistics "
     "and solution)",
